@@ -895,6 +895,8 @@ def gen_c15(rng, profile):
     if rng.random() < 0.6:
         kn["chunks"] = rng.choice([2, 3])
         kn["inherit"] = True
+    if rng.random() < 0.2:
+        kn.update({"union_focus": True, "n_leaf": 2, "p_plain": 0.6, "n_outer": 2})
     spec = gen.gen_family(rng, kn)
     fam = F.Fam(spec)
     if rng.random() < 0.5:
